@@ -6,4 +6,5 @@ INVARIANT Deterministic
 INVARIANT NoCarryOver
 INVARIANT NoPolicyWrite
 PROPERTY SharedIsReadOnly
+PROPERTY Termination
 CHECK_DEADLOCK FALSE
